@@ -470,3 +470,21 @@ pub fn stream_pull(st: &mut StreamState, c: &[u8], ad: Option<&[u8]>) -> Option<
 pub fn stream_rekey(st: &mut StreamState) {
     unsafe { ffi::crypto_secretstream_xchacha20poly1305_rekey(st) }
 }
+
+/// libsodium's own password hash string (argon2id), used as a valid seed for
+/// parser mutations.
+pub fn pwhash_str(pw: &[u8], ops: u64, mem: usize) -> String {
+    let mut out = [0 as libc::c_char; 128];
+    let rc = unsafe {
+        ffi::crypto_pwhash_str(
+            out.as_mut_ptr(),
+            pw.as_ptr() as *const libc::c_char,
+            ull(pw.len()),
+            ops as libc::c_ulonglong,
+            mem,
+        )
+    };
+    assert_eq!(rc, 0);
+    let bytes: Vec<u8> = out.iter().take_while(|c| **c != 0).map(|c| *c as u8).collect();
+    String::from_utf8(bytes).expect("ascii")
+}
